@@ -195,6 +195,8 @@ def generate(rng, tier):
         if r < 0.38:
             tagn += 1
             op = {"op": "register", "spec": gen_spec(rng), "tag": "c%d" % tagn}
+            if rng.random() < 0.06:
+                op["falsy"] = True
             if flavour == "private_base" and rng.random() < 0.3:
                 op["on_base"] = True
             if rng.random() < 0.08:
@@ -283,7 +285,7 @@ class World:
             setattr(H["Short"], self.ref.shortcut, staticmethod(sc) if fl != "global_transformer" else sc)
             self.ref.shortcut_tags["Short"] = "shortcut"
 
-    def make_conv(self, tag, fail=False):
+    def make_conv(self, tag, fail=False, falsy=False):
         Tagged = self.H["Tagged"]
         fl = self.flavour
         if fl == "global_encoder":
@@ -298,6 +300,19 @@ class World:
                 return Tagged(tag, data)
         conv.tag = tag
         conv.__name__ = "conv_" + tag
+        if falsy:
+            # a callable object that is falsy (e.g. an empty pipeline with __len__): still the registered converter
+            fn = conv
+
+            class FalsyConv:
+                def __call__(self, *a, **k):
+                    return fn(*a, **k)
+
+                def __len__(self):
+                    return 0
+            conv = FalsyConv()
+            conv.tag = tag
+            conv.__name__ = "conv_" + tag
         self.convs[tag] = conv
         return conv
 
@@ -330,7 +345,7 @@ class World:
                     raise faults.EXC_CLASSES[failname]("detector fault")
                 return c is target
             kw["detector"] = detector
-        conv = self.make_conv(op["tag"], fail=op.get("conv_fail", False))
+        conv = self.make_conv(op["tag"], fail=op.get("conv_fail", False), falsy=op.get("falsy", False))
         reg = self.base if op.get("on_base") else self.reg
         reg.register(*classes, **kw)(conv)
 
